@@ -81,6 +81,7 @@ type Resp struct {
 	FlushErr  string `json:"flush_err,omitempty"`
 	FinishErr string `json:"finish_err,omitempty"`
 	Panic     string `json:"panic,omitempty"`
+	PanicVal  any    `json:"-"`
 	Stack     string `json:"-"`
 	Budget    bool   `json:"budget_exceeded,omitempty"`
 	Steps     int    `json:"steps"`
@@ -154,6 +155,7 @@ func (s *Session) Request(input []byte) (r Resp) {
 			buf := make([]byte, 16384)
 			buf = buf[:runtime.Stack(buf, false)]
 			r.Panic = fmt.Sprint(p)
+			r.PanicVal = p
 			r.Stack = string(buf)
 		}
 	}()
